@@ -83,7 +83,7 @@ Lookalike(c) == c.res \notin {"plain", "ping"} /\ c.spell \in {"slash", "upper",
 
 Violated(c, o) ==
    { r \in {"X03_HealthIndependent", "X03_ReservedNeverForwarded", "X03_LookalikeIsUpstreamPath", "X03_ForeignHostGetsNothing",
-            "X03_NoForwardWithoutSessionOrSkip", "X03_ForwardedUnchanged", "X03_AuthOnlySaysWhoIsIn"} :
+            "X03_NoForwardWithoutSessionOrSkip", "X03_ForwardedUnchanged", "X03_AuthOnlySaysWhoIsIn", "X03_AuthOnly202OnlyForSession"} :
        CASE r = "X03_HealthIndependent"      -> c.res = "ping" /\ c.spell = "exact" /\ (o.status # 200 \/ o.reached)
          [] r = "X03_ReservedNeverForwarded" -> ReservedExact(c) /\ o.reached /\ ~(c.res = "favicon" /\ c.session /\ c.host # "other")
          [] r = "X03_LookalikeIsUpstreamPath" ->
@@ -92,6 +92,7 @@ Violated(c, o) ==
          [] r = "X03_ForeignHostGetsNothing" -> c.host = "other" /\ ~HealthPath(c) /\ (o.status # 421 \/ o.reached \/ o.cookie)
          [] r = "X03_NoForwardWithoutSessionOrSkip" -> o.reached /\ ~(c.session \/ c.host = "open")
          [] r = "X03_ForwardedUnchanged"     -> o.reached /\ ~o.same
+         [] r = "X03_AuthOnly202OnlyForSession" -> c.res = "auth" /\ o.status = 202 /\ ~c.session
          [] r = "X03_AuthOnlySaysWhoIsIn"    -> c.res = "auth" /\ c.spell = "exact" /\ c.host # "other" /\ (o.status = 202) # c.session }
 
 Drift(c, o) == (IF o.status \in StatusOf(c) THEN {} ELSE {"status"}) \cup (IF o.reached = Forwarded(c) THEN {} ELSE {"reached"})
